@@ -46,6 +46,16 @@ def _norm_text(f, e, alias):
             return rec(n['e'])
         if n['k'] == 'lit':
             return str(n.get('v'))
+        if n['k'] == 'call':
+            name = (n.get('m') or (n.get('f') or '?').split('::')[-1])
+            args = ','.join(rec(a_) for a_ in n.get('a', []) if a_ is not None and a_.get('k') != 'defarg')
+            if n.get('obj') is not None and n.get('m'):
+                return '%s.%s(%s)' % (rec(n['obj']), name, args)
+            return '%s(%s)' % (name, args)
+        if n['k'] in ('bin', 'opcall') and n.get('x') is not None and n.get('y') is not None:
+            return '(%s%s%s)' % (rec(n['x']), n.get('op'), rec(n['y']))
+        if n['k'] == 'un' and n.get('e') is not None:
+            return '%s%s' % (n['op'], rec(n['e']))
         return show(n).replace(' ', '')
     return rec(e)
 
